@@ -158,6 +158,8 @@ class TorchBackend:
         tensor_required_funcs = {
             'abs', 'trunc', 'floor', 'ceil', 'round', 'sign',
             'sin', 'cos', 'tan', 'exp', 'log', 'sqrt',
+            'sinh', 'cosh', 'tanh', 'asin', 'acos', 'atan',
+            'log2', 'log10', 'log1p', 'expm1', 'sigmoid',
             'isinf', 'isnan', 'isfinite',
             'minimum', 'maximum', 'fmod',
             'less', 'greater', 'less_equal', 'greater_equal',
@@ -791,9 +793,10 @@ class TorchBackendProvider(BackendProvider):
             raise NonScalarLossError(tuple(y.shape))
 
         # Compute all gradients in one backward pass using torch.autograd.grad
-        grads = torch.autograd.grad(y, grad_tensors, create_graph=False)
+        # a parameter the loss does not depend on has a zero gradient
+        grads = torch.autograd.grad(y, grad_tensors, create_graph=False, allow_unused=True)
 
-        return list(grads)
+        return [torch.zeros_like(t) if g is None else g for g, t in zip(grads, grad_tensors)]
 
     def compute_jacobian(self, func, x):
         """
